@@ -91,6 +91,14 @@ func (x *Exec) globalAxioms() string {
 		fmt.Fprintf(&sb, "(assert (= (kindOfTid %d) %s))\n", i+1, x.GoInt(int64(kindOfType(T))).Op)
 	}
 	sb.WriteString("(assert (= (kindOfTid 0) " + x.GoInt(0).Op + "))\n")
+	if len(x.strLits) > 1 {
+		var ls []string
+		for n := range x.strLits {
+			ls = append(ls, quoteSym(n))
+		}
+		sort.Strings(ls)
+		sb.WriteString("(assert (distinct " + strings.Join(ls, " ") + "))\n")
+	}
 	var names []string
 	for n := range x.ifaceUsed {
 		names = append(names, n)
@@ -103,6 +111,14 @@ func (x *Exec) globalAxioms() string {
 		}
 	}
 	return sb.String()
+}
+
+func (x *Exec) strLitTerms() []*Term {
+	var out []*Term
+	for n := range x.strLits {
+		out = append(out, x.tt.Sym(n, "Str"))
+	}
+	return out
 }
 
 // allTerms used by the VC
@@ -144,7 +160,7 @@ func (x *Exec) incrementalScriptFor(timeoutMs int, prop string) (string, []*Obli
 		em.decl["f:"+n] = true
 		em.decl["s:"+n] = true
 	}
-	em.Declare(ts)
+	em.Declare(append(append([]*Term{}, ts...), x.strLitTerms()...))
 	sb.WriteString(x.globalAxioms())
 	em.Define(ts)
 	var order []*Obligation
@@ -190,7 +206,7 @@ func (x *Exec) standaloneScript(o *Obligation, solver string, model bool) string
 		em.decl["f:"+n] = true
 		em.decl["s:"+n] = true
 	}
-	em.Declare(ts)
+	em.Declare(append(append([]*Term{}, ts...), x.strLitTerms()...))
 	sb.WriteString(x.globalAxioms())
 	em.Define(ts)
 	for _, f := range x.facts[:o.NFacts] {
